@@ -36,6 +36,7 @@ type c09Case struct {
 	uncovered []string
 	dup       bool // one arm is written twice (the copy-paste slip): counts once
 	scope     *c09Scope
+	defaultOnly bool // the match consists of the default arm alone
 }
 
 // naming scheme 1: case names that are prefixes of one another or differ only in the case of a letter
@@ -133,6 +134,31 @@ func c09Driver(maxN, hostMaxN int) func(c *explore.Chooser) *c09Case {
 		}
 		cs.accept = cs.deflt || len(cs.uncovered) == 0
 		cs.src = c09Render(cs, "")
+		return cs
+	}
+}
+
+// c09DefaultOnlyDriver: a match that consists of the default arm alone - it "ends with a default arm", so the
+// statement demands acceptance (fc refuses it by design: the recorded finding C09:default-only-match-rejected)
+func c09DefaultOnlyDriver() func(c *explore.Chooser) *c09Case {
+	return func(c *explore.Chooser) *c09Case {
+		cs := &c09Case{defaultOnly: true, accept: true, deflt: true}
+		cs.n = 1 + c.Choose(3)
+		cs.payload = make([]bool, cs.n)
+		for i := range cs.payload {
+			cs.payload[i] = c.Bool()
+		}
+		var sb strings.Builder
+		sb.WriteString("package main\nimport frt\nimport slice\n\ntype U =\n")
+		for i := 0; i < cs.n; i++ {
+			if cs.payload[i] {
+				fmt.Fprintf(&sb, "  | %s of int\n", c09Name(i))
+			} else {
+				fmt.Fprintf(&sb, "  | %s\n", c09Name(i))
+			}
+		}
+		sb.WriteString("\nlet f (u:U) =\n  match u with\n  | _ -> 999\n")
+		cs.src = sb.String()
 		return cs
 	}
 }
@@ -398,7 +424,7 @@ func checkC09(c *core.Ctx) {
 		panic(err)
 	}
 	c.Set("rule", "cases are enumerated by the choice-tree explorer: number of union cases n, payload mask, ordered non-empty selection of distinct arms, pattern form per payload arm (bind / _ / none), default arm yes/no, hosting position (n<=3); distinct = distinct program text; non-trivial = n >= 2 (so that a proper subset of the cases exists)")
-	c.Assumption("a default-only match, a default arm that is not last, duplicate arms and arms naming a foreign case are outside the space (the statement's accept/reject clause is about coverage)")
+	c.Assumption("a default arm that is not last and arms naming a foreign case are outside the space (the statement's accept/reject clause is about coverage)")
 	c.Assumption("the diagnostic is only required to contain the name of a really uncovered case somewhere; its wording is not matched")
 	if c.ReplayFile != "" {
 		c09Replay(c, fc, sc)
@@ -492,6 +518,17 @@ func checkC09(c *core.Ctx) {
 		c.Count(0, st4.States, st4.Transitions, 0)
 		c.Set("target_named_like_another_binder", map[string]any{"programs": st4.Executions - st4.Skipped, "space": "binder kind (arm payload, lambda parameter, inner-block let, local function parameter) x binder type (union sharing case names with the target's, int, unrelated union) x binder name (same as the target / other) x position of the match (later, earlier, inside the binder's scope, after the whole construct) x every non-empty arm subset x default"})
 	}
+	{
+		dd := c09DefaultOnlyDriver()
+		var cur5 *c09Case
+		st5 := explore.Explore(-1, func(ch *explore.Chooser) { cur5 = dd(ch) }, func(ch *explore.Chooser) bool {
+			cur5.choices = append([]int{}, ch.Choices...)
+			jobs <- cur5
+			return true
+		})
+		c.Count(0, st5.States, st5.Transitions, 0)
+		c.Set("default_only_matches", st5.Executions)
+	}
 	close(jobs)
 	wg.Wait()
 	c.Count(0, st.States, st.Transitions, 0)
@@ -513,6 +550,7 @@ func checkC09(c *core.Ctx) {
 			}(acceptedScope[i:j])
 		}
 		wg2.Wait()
+		c09ZeroValue(c, fc, sc)
 	}
 }
 
@@ -586,6 +624,10 @@ func c09RunOne(c *core.Ctx, fc, foi, dir string, cs *c09Case) bool {
 			return true
 		}
 		c.Outcome("wrongly-rejected")
+		if cs.defaultOnly && strings.Contains(r.Out(), "Only default case") {
+			c.Violation("C09:default-only-match-rejected", fmt.Sprintf("a match that consists of the default arm alone was rejected: %s", strings.TrimSpace(r.Out())), rep(fmt.Sprintf("exit=%d gen=%v out=%s", r.Exit, genExists, r.Out())))
+			return false
+		}
 		c.Violation(fmt.Sprintf("C09:wrongly-rejected:host%d", cs.host), fmt.Sprintf("a match that covers every case (or has a default arm) was rejected: exit=%d %s", r.Exit, strings.TrimSpace(r.Out())), rep(fmt.Sprintf("exit=%d gen=%v out=%s", r.Exit, genExists, r.Out())))
 		return false
 	}
